@@ -80,6 +80,9 @@ def gen_spec(rnd, allow_disk=True, allow_columns=False):
             # the Crop pattern: field depends on itself twice
             if rnd.random() < 0.15:
                 args.append(f)
+            # a keyword binding (the keyword names are part of the node hash)
+            if rnd.random() < 0.25:
+                args.append(rnd.choice(['low', 'high']) + '=' + rnd.choice(fields))
             t['fields'][f] = [sy.fresh(), args]
         if rnd.random() < 0.12:
             t['byvalue'] = [rnd.choice(changed)]
@@ -93,6 +96,13 @@ def variant_of(spec, sy, rnd):
     """the same pipeline with one user function replaced by another one (a different computation)"""
     v = copy.deepcopy(spec)
     ts = [d for d in v if d['t'] == 'transform']
+    # the same function bound under another keyword name, when there is one; else another function
+    kw = [(t, f) for t in ts for f in sorted(t['fields']) if any('=' in a for a in t['fields'][f][1])]
+    if kw and rnd.random() < 0.6:
+        t, f = rnd.choice(kw)
+        name, args = t['fields'][f]
+        t['fields'][f] = [name, [('high=' + a[4:] if a.startswith('low=') else 'low=' + a[5:]) if '=' in a else a for a in args]]
+        return v
     t = rnd.choice(ts)
     f = rnd.choice(sorted(t['fields']))
     t['fields'][f] = [sy.fresh(), t['fields'][f][1]]
